@@ -104,6 +104,27 @@ def run(ctx):
             if ev['kind'] == 'relabel' and len(ctx.samples) < 2 and ev['res']['keys']:
                 ctx.sample({'basis': describe_cfg(ev['u']), 'op': ev['op'], 'args_custom': ev['args'], 'args_default': ev['args0'],
                             'res_custom': ev['res'], 'res_default': ev['res0']})
+    # coefficient accessors and keyword constructors with permuted spellings in custom bases (ConstructModel, as in C15):
+    # the same algebra instance resolves many spellings of every blade
+    import drive_construct
+    cdir = os.path.join(ctx.work, 'construct')
+    os.makedirs(cdir, exist_ok=True)
+    cus = [u for u in us if u['basis']]
+    cjobs = [{'u': u, 'opts': {}, 'forms': ['kwargs', 'kwargs', 'blade', 'kv_name', 'helper'], 'n': 25 if q else 80, 'seed': ctx.seed + 7 * i,
+              'out': os.path.join(cdir, f'a{i}.ndjson'), 'prefix': f'a{i}'} for i, u in enumerate(rng.sample(cus, min(len(cus), 16 if q else 80)))]
+    cres = drive_construct.run_jobs(cjobs)
+    cfiles = [r_['out'] for r_ in cres if r_['events']]
+    crej = ctx.validate('TraceConstruct.tla', 'TraceConstruct.cfg', cfiles, header_lines=0)
+    cby = {}
+    for f in cfiles:
+        for line in open(f):
+            e_ = json.loads(line)
+            cby[e_['id']] = e_
+            ctx.evaluations += 1
+    for f, (eid, clause) in crej:
+        e_ = cby[eid]
+        ctx.report(f"{e_['form']} construction / access in custom basis {describe_cfg(e_['u'])} supplied {e_['supplied']}: {clause}",
+                   {'kind': 'construct', 'form': e_['form'], 'clause': clause}, {'event': e_, 'spec': 'TraceConstruct.tla'})
     # the same cases against the intrinsic reference of the custom configuration
     run_plan(ctx, groups, budget=60, subdir='intrinsic')
     return ctx.finish(
